@@ -20,7 +20,7 @@ import (
 // style ids are renamed to localised ones consistently in the styles part and the main part
 // (as Word zh-CN / WPS write them) and, optionally, every style the body does not need is dropped.
 type Start struct {
-	Scheme    string `json:"scheme"`          // none | zh | wps
+	Scheme    string `json:"scheme"`          // none | zh | wps | lower | upper | suffix (see nearMissSchemes)
 	Strip     bool   `json:"strip,omitempty"` // keep only the styles the body refers to (plus defaults and their bases)
 	Headings  []int  `json:"headings,omitempty"`
 	Custom    bool   `json:"custom,omitempty"` // a paragraph using a custom paragraph style
@@ -77,6 +77,16 @@ func renameMap(scheme string) map[string]string {
 	m["CodeBlock"] = "a7"
 	m["StartPara"] = "a8"
 	return m
+}
+
+// nearMissSchemes: producers for which a style id is an opaque, case-sensitive string (as ST_String is) and whose ids
+// are NOT the ones the library emits but come close to them: the same letters in another case (heading1, HEADING1,
+// normal) or the library's id plus a suffix (Heading1x, 12x). The package is consistent in itself; whatever the library
+// refers to later (Heading1, 12, ...) is, by exact comparison, not defined in such a styles part.
+var nearMissSchemes = map[string]func(string) string{
+	"lower":  strings.ToLower,
+	"upper":  strings.ToUpper,
+	"suffix": func(id string) string { return id + "x" },
 }
 
 var (
@@ -142,7 +152,16 @@ func buildStart(s *Start) ([]byte, error) {
 	}
 	doc := string(pkg.Parts["word/document.xml"])
 	sty := string(pkg.Parts["word/styles.xml"])
-	if m := renameMap(s.Scheme); len(m) > 0 {
+	m := renameMap(s.Scheme)
+	if f := nearMissSchemes[s.Scheme]; f != nil {
+		// every id the styles part defines is replaced by its near-miss spelling (ids without letters stay under lower/upper)
+		for _, g := range reStyleID.FindAllStringSubmatch(sty, -1) {
+			if n := f(g[2]); n != g[2] {
+				m[g[2]] = n
+			}
+		}
+	}
+	if len(m) > 0 {
 		doc = renameIn(doc, reValRef, m)
 		sty = renameIn(sty, reValRef, m)
 		sty = renameIn(sty, reStyleID, m)
